@@ -142,7 +142,7 @@ def run_many(flavour, scenarios, workers=None, **kw):
         return list(ex.map(one, scenarios))
 
 # ------------------------------------------------------------------ sanitizer report parsing
-_FRAME = re.compile(r'#\d+ 0x[0-9a-f]+ in (\S+) (\S+?)(?::\d+)?(?::\d+)?\s*$', re.M)
+_FRAME = re.compile(r'#\d+ (?:0x[0-9a-f]+ in )?(\S+) (\S+?)(?::\d+)?(?::\d+)?(?: \([^()]*\))?\s*$', re.M)      # ASan and gcc-TSan frame formats
 
 def repo_frame(block):
     """innermost frame of a report block that lies in /repo"""
